@@ -441,6 +441,32 @@ func c16R5(p *Prog, r *Report) {
 		var finalEdges []Edge
 		for _, v := range fr.G.V {
 			x, y, op, ok := condParts(v)
+			if ok && y == nil && v.Kind == VCond {
+				// a local flag whose only definition is the status comparison
+				if o := objOf(rinfo, x); o != nil {
+					if rhs, _, _, sole := fr.SoleDefRHS(o); sole {
+						if be, isBin := ast.Unparen(rhs).(*ast.BinaryExpr); isBin {
+							if sel, isSel := ast.Unparen(be.X).(*ast.SelectorExpr); isSel && sel.Sel.Name == "StatusCode" && objOf(rinfo, sel.X) == resp {
+								if k, isC := constInt(rinfo, be.Y); isC && k == 200 {
+									final := -1
+									switch be.Op {
+									case token.GEQ:
+										final = LTrue
+									case token.LSS:
+										final = LFalse
+									}
+									for _, e := range v.Succs {
+										if e.Label == final {
+											finalEdges = append(finalEdges, e)
+										}
+									}
+								}
+							}
+						}
+					}
+				}
+				continue
+			}
 			if !ok || y == nil {
 				continue
 			}
